@@ -10,7 +10,8 @@
    environment): the theorems hold for EVERY assignment, in particular for non-decreasing ones
    with equal ticks (C12_last_store_wins_coarse_clock spells that case out).
    A crash while the file is written (OCrash k) leaves the first k bytes of the file and ends the
-   process: the next operation runs on a new loader.
+   process: the next operation runs on a new loader.  OTear k / OForeign s are changes of the file
+   by ANOTHER writer (cut to k bytes / complete store of s) while this loader lives on with its cache.
    A history is a list of operations on one path; [run] executes it on the model of the code
    (file system + loader with its mtime-keyed cache), [last_store_run] is the three-line
    reference: Store -> ok and remember, Load -> the remembered session or not-found. *)
@@ -79,13 +80,20 @@ Example C12_dir_shapes :
   /\ go_dir [46;46;47;120;47;115] = [46;46;47;120].                          (* "../x/s" -> "../x" *)
 Proof. vm_compute. repeat split. Qed.
 
-(* Histories with crashes, restarts and client starts: the code behaves exactly like the reference
-   store whose state is "last stored session + how many bytes of its file survived". *)
+(* Histories with crashes, restarts, client starts AND changes made by another writer while the
+   loader lives on (OTear: the file is left cut short; OForeign: another loader stores a complete
+   session): the code behaves exactly like the reference store whose state is "last stored session
+   + how many bytes of its file survive".  The loader's cache is keyed on the modification time
+   alone, so what the code guarantees for a change by ANOTHER writer is tied to its time:
+   [foreign_newer 0 ops] = every OTear / OForeign carries a time strictly later than every time
+   handed out before it.  The loader's own stores, crashes and restarts may share ticks freely
+   (histories without another writer need no condition: C12_last_store_wins above).
+   C12_foreign_equal_tick_unseen states exactly what happens on an equal tick. *)
 Theorem C12_history_refines :
   forall b64enc b64dec marshal unmarshal, base64_ok b64enc b64dec -> json_ok marshal unmarshal ->
   forall (p : bytes) (fs : fsys) (ops : list op),
     p <> [] -> dirs fs (go_dir p) = DDir -> files fs p = None ->
-    forallb proper ops = true ->
+    forallb proper ops = true -> foreign_newer 0 ops = true ->
     run b64enc b64dec marshal unmarshal fs (fresh p) ops = ideal_run b64enc marshal IAbsent ops.
 Proof. intros ? ? ? ? [? ?] [? ?]. now apply history_refines. Qed.
 Print Assumptions C12_history_refines.
@@ -108,6 +116,68 @@ Theorem C12_torn_is_error :
     load b64dec unmarshal fs l = (LErr, l).
 Proof. intros ? ? ? ? [? ?] [? ?]. now apply torn_is_error. Qed.
 Print Assumptions C12_torn_is_error.
+
+(* ... for ANY loader that can see the cut - nothing cached, or cached at another modification time
+   (a long-lived loader after another writer tore the file on a later tick) - and however often it
+   asks: every Load is an error, the loader's state does not move. *)
+Theorem C12_torn_every_load_is_error :
+  forall b64enc b64dec marshal unmarshal, base64_ok b64enc b64dec -> json_ok marshal unmarshal ->
+  forall (fs : fsys) (l : loader) (s : session) (k : nat) (t : N) (n : nat),
+    session_ok s = true -> (k < length (render b64enc marshal s))%nat ->
+    files fs (l_path l) = Some (firstn k (render b64enc marshal s), t) ->
+    l_cached l = None \/ t <> l_last l ->
+    load b64dec unmarshal fs l = (LErr, l)
+    /\ run b64enc b64dec marshal unmarshal fs l (repeat OLoad n) = repeat (ObsLoad LErr) n.
+Proof.
+  intros ? ? ? ? [? ?] [? ?]. intros. split.
+  - now apply (tear_load_error b64enc b64dec marshal unmarshal) with (s := s) (k := k) (t := t).
+  - now apply (tear_every_load_error b64enc b64dec marshal unmarshal) with (s := s) (k := k) (t := t).
+Qed.
+Print Assumptions C12_torn_every_load_is_error.
+
+(* The long-lived loader, end to end from any state: it stores s and reads it back (cached); ANOTHER
+   writer leaves the file cut to k < n bytes on a later tick; every one of the n Loads of the
+   surviving loader is an error, and after a restart every one of the m Loads of a new loader too. *)
+Theorem C12_foreign_tear_history :
+  forall b64enc b64dec marshal unmarshal, base64_ok b64enc b64dec -> json_ok marshal unmarshal ->
+  forall (fs : fsys) (l : loader) (s : session) (t : N) (k : nat) (t' : N) (n m : nat),
+    l_path l <> [] -> dirs fs (go_dir (l_path l)) = DDir -> session_ok s = true ->
+    (k < length (render b64enc marshal s))%nat -> t < t' ->
+    run b64enc b64dec marshal unmarshal fs l
+      ([OStore s t; OLoad; OTear k t'] ++ repeat OLoad n ++ OFresh :: repeat OLoad m)
+    = [ObsStore (Ok tt); ObsLoad (LOk s); ObsNone] ++ repeat (ObsLoad LErr) n
+      ++ ObsNone :: repeat (ObsLoad LErr) m.
+Proof. intros ? ? ? ? [? ?] [? ?]. intros. now apply tear_history. Qed.
+Print Assumptions C12_foreign_tear_history.
+
+(* Another loader stores a complete session on a later tick: the surviving loader returns it. *)
+Theorem C12_foreign_store_newer_wins :
+  forall b64enc b64dec marshal unmarshal, base64_ok b64enc b64dec -> json_ok marshal unmarshal ->
+  forall (fs : fsys) (l : loader) (a b : session) (t t' : N) (n : nat),
+    l_path l <> [] -> dirs fs (go_dir (l_path l)) = DDir ->
+    session_ok a = true -> session_ok b = true -> t < t' ->
+    run b64enc b64dec marshal unmarshal fs l ([OStore a t; OLoad; OForeign b t'] ++ repeat OLoad n)
+    = [ObsStore (Ok tt); ObsLoad (LOk a); ObsNone] ++ repeat (ObsLoad (LOk b)) n.
+Proof. intros ? ? ? ? [? ?] [? ?]. intros. now apply foreign_newer_wins. Qed.
+Print Assumptions C12_foreign_store_newer_wins.
+
+(* EXACTLY what the code does when another writer's change lands on the very tick the surviving
+   loader cached at: the change is invisible to that loader - it keeps returning the session it
+   stored and read back itself (never anything else, never a panic) - while a new loader sees the
+   file as it is (the foreign session, resp. an error for the cut file).  This is the limit of a
+   cache keyed on the modification time; the clause "a cut file is an error" holds for a
+   surviving loader only when the cut carries another time (C12_torn_every_load_is_error). *)
+Theorem C12_foreign_equal_tick_unseen :
+  forall b64enc b64dec marshal unmarshal, base64_ok b64enc b64dec -> json_ok marshal unmarshal ->
+  forall (fs : fsys) (l : loader) (a b : session) (t : N) (k : nat),
+    l_path l <> [] -> dirs fs (go_dir (l_path l)) = DDir ->
+    session_ok a = true -> session_ok b = true -> (k < length (render b64enc marshal a))%nat ->
+    run b64enc b64dec marshal unmarshal fs l [OStore a t; OLoad; OForeign b t; OLoad; OFresh; OLoad]
+    = [ObsStore (Ok tt); ObsLoad (LOk a); ObsNone; ObsLoad (LOk a); ObsNone; ObsLoad (LOk b)]
+    /\ run b64enc b64dec marshal unmarshal fs l [OStore a t; OLoad; OTear k t; OLoad; OFresh; OLoad]
+    = [ObsStore (Ok tt); ObsLoad (LOk a); ObsNone; ObsLoad (LOk a); ObsNone; ObsLoad LErr].
+Proof. intros ? ? ? ? [? ?] [? ?]. intros. now apply foreign_equal_tick_unseen. Qed.
+Print Assumptions C12_foreign_equal_tick_unseen.
 
 (* ... and end to end from any state: store, crash at byte k, restart, load. *)
 Theorem C12_store_crash_load :
